@@ -279,7 +279,9 @@ var c03Cfg = func() genCfg {
 		Strs:     []string{"", "a", "hello", "(", "[a-", "l", "12", "1.5", "中文", "2006-01-02", "UTC", "Asia/Shanghai", "No/Where", " x ", "%v", "a\x00b"},
 		Kws:      []string{"null", "true", "false", "this", "ctx"},
 		MaxArgs:  4,
+		Targets:  []string{"$a", "$b", "$unset", "$loc"}, // most assignments bind a local (nested, chained, inside arguments)
 	}
+	cfg.Names = append(cfg.Names, "$a", "$b")
 	cfg.Callees = append(cfg.Callees, builtinNames()...)
 	for k, v := range worldSpec() {
 		if v.K == "func" {
@@ -382,6 +384,8 @@ func TestC03OperatorGrid(t *testing.T) {
 				try(x + " " + op + " " + y)
 			}
 			try("$w = " + y + ", " + x)
+			try("$w = $v = " + y + ", [$w, $v, " + x + "]")
+			try("$w = ($v = " + x + ") + fnA($u = " + y + ")")
 			try(x + " ? " + y + " : " + x)
 			try(x + "(" + y + ")")
 			try("[" + x + "," + y + "...]")
